@@ -279,6 +279,48 @@ def _rhs_sums_to_zero(g):
 
 
 # ---------------------------------------------------------------------------
+# DEFMAP: the status map is a defaultdict - susceptible nodes are implicit in it
+# ---------------------------------------------------------------------------
+def default_status_map_rule(repo, rep, modules=("analytic",)):
+    rep.rule("DEFMAP", "the map returned by _initialize_node_status_ is a defaultdict that holds the listed infected / recovered nodes "
+                       "(and whatever was looked up so far): it is only ever subscripted; counting or iterating it (len, values(), "
+                       "items(), Counter, for ... in) leaves out the susceptible nodes nobody has asked about yet")
+    n = 0
+    for f in repo.all_funcs():
+        if f.module not in modules or f.parent is not None:
+            continue
+        names = {x.targets[0].id for x in own_nodes(f.node) if isinstance(x, ast.Assign) and len(x.targets) == 1
+                 and isinstance(x.targets[0], ast.Name) and isinstance(x.value, ast.Call)
+                 and (_k(x.value.func) or "").split(".")[-1] == "_initialize_node_status_"}
+        if not names:
+            continue
+        n += 1
+        rep.analysed(f)
+        bad = []
+        parent = {}
+        for z in ast.walk(f.node):
+            for c in ast.iter_child_nodes(z):
+                parent[id(c)] = z
+        for z in ast.walk(f.node):
+            if isinstance(z, ast.Name) and z.id in names and isinstance(z.ctx, ast.Load):
+                p = parent.get(id(z))
+                if isinstance(p, ast.Subscript) and p.value is z:
+                    continue                                  # status[node]
+                if isinstance(p, ast.Attribute) and p.attr in ("get", "__getitem__"):
+                    continue
+                if isinstance(p, ast.Call) and z in p.args and (_k(p.func) or "").startswith(("_", "EoN._")) :
+                    continue                                  # handed on to another package helper (checked there)
+                if isinstance(p, ast.Return) or isinstance(p, ast.Tuple) and isinstance(parent.get(id(p)), ast.Return):
+                    continue
+                bad.append(p if p is not None else z)
+        rep.ob("DEFMAP", not bad, "%s: the default status map is only subscripted" % f.name, func=f, node=bad[0] if bad else f.node,
+               construct="%s: uses of %s other than subscripts: %d" % (f.name, sorted(names), len(bad)),
+               detail="" if not bad else "`%s` counts / iterates the defaultdict of statuses: susceptible nodes that were never looked up "
+               "(isolated nodes, nodes not reached yet) are missing from it" % short(bad[0], 60))
+    rep.floor("DEFMAP", "functions that build a default status map", n, 10)
+
+
+# ---------------------------------------------------------------------------
 # R4s: aggregates are taken before a solution block is given its 3-D shape
 # ---------------------------------------------------------------------------
 def r4s(repo, rep, modules=("analytic",)):
@@ -320,7 +362,21 @@ def r4s(repo, rep, modules=("analytic",)):
                    node=bad[0][2] if bad else sh, construct="%s: %s" % (f.name, short(sh)),
                    detail="" if not bad else "`%s` is evaluated after `%s`: it now sums over the first of three axes and returns a "
                    "2-D array instead of one value per time" % (short(bad[0][0]), short(sh)))
-    rep.floor("R4s", "in-place 3-D reshapes of solution blocks", n, 8)
+    # `.T` of a three-dimensional block reverses ALL axes: (time, k, l) becomes (l, k, time) - the two degree indices swap.
+    # Getting (k, l, time) needs transpose(1, 2, 0).
+    for f in repo.all_funcs():
+        if f.module not in modules or f.parent is not None:
+            continue
+        for z in ast.walk(f.node):
+            if isinstance(z, ast.Attribute) and z.attr == "T" and isinstance(z.value, ast.Call) and isinstance(z.value.func, ast.Attribute) \
+                    and z.value.func.attr == "reshape":
+                dims = z.value.args[0].elts if len(z.value.args) == 1 and isinstance(z.value.args[0], ast.Tuple) else z.value.args
+                if len(dims) >= 3:
+                    rep.analysed(f)
+                    rep.ob("R4s", False, "%s: a 3-D block is not transposed with .T" % f.name, func=f, node=z, construct=short(z, 70),
+                           detail="`%s` reverses all three axes, so the two degree-class indices of the table are exchanged "
+                           "(only symmetric tables survive that)" % short(z, 70))
+    rep.floor("R4s", "in-place 3-D reshapes of solution blocks", n, 6)
 
 
 # ---------------------------------------------------------------------------
